@@ -15,6 +15,8 @@ import RuxModel.Model.Render
     compile <path>                       -> ok <first> <start> <spath> <regex> <names> | panic
     build <path> <k=v,...>               -> <path> <sorted query pairs>
     cnew <cap> | cset <k> <id> | cget <k> | cdel <k> | chas <k> | clen | ckeys
+    comb <n1> <n2> | pclone <nil|k=v,…> | rcopy <name> <path> <methods> <nmiddleware> <nil|k=v,…>
+    wopt <routes 0|1> <options of New> <options of a later WithOptions>   options: enc cache strict fb mna icpt:<hex> max:<n> cnum:<n>
     winit <script> | wh <code> | wr <bytes> | fl | wst                                   (responseWriter)
     rinit <content type|-> <script> | rblob <ct> <data> | rtext <data> | rhtml <data> | rjson | rjsonp <cb> | rxml |
     rauto <accept header> | rst           (pkg/render on a plain writer; the value rendered is the string "x")
@@ -236,6 +238,67 @@ where stepP (c : Gen.CR Nat) : List String → Gen.CR Nat × String
     | none => (c, "bad-op")
   | ["cdel", k] => match unhex k with | some k => ((Gen.CR.Delete c k).1, boolS (Gen.CR.Delete c k).2) | none => (c, "bad-op")
   | ["chas", k] => match unhex k with | some k => ((Gen.CR.Has c k).1, boolS (Gen.CR.Has c k).2) | none => (c, "bad-op")
+  -- middleware.go combineHandlers on marker chains [0..n1) and [n1..n1+n2)
+  | ["comb", n1, n2] =>
+    match n1.toNat?, n2.toNat? with
+    | some n1, some n2 =>
+      (c, match Gen.combineHandlers (List.range n1) ((List.range n2).map (· + n1)) with
+          | .ok l => if l.isEmpty then "-" else String.intercalate "," (l.map toString)
+          | .error _ => "panic")
+    | _, _ => (c, "bad-op")
+  -- route.go Params.clone (`nil` = a nil map)
+  | ["pclone", m] =>
+    (c, match (if m = "nil" then some none else (parsePairs m).map some) with
+        | some p => (match Gen.Params.clone p id with | none => "nil" | some l => pairsS (sortPairs l))
+        | none => "bad-op")
+  -- route.go copyWithParams of a registered dynamic route: name, path, methods, number of middleware, params
+  | ["rcopy", name, path, ms, nh, m] =>
+    match unhex name, unhex path, parseHexList ms, nh.toNat?, (if m = "nil" then some none else (parsePairs m).map some) with
+    | some name, some path, some ms, some nh, some ps =>
+      -- the route as `AddNamed` builds it (generated constructor), with what registration adds to a dynamic route
+      let r0 := Gen.NewNamedRoute name path (some 0) ms
+      let r : Gen.Route := { r0 with handlers := List.range nh, matches_ := [[1]], start := [2], spath := [3], regex := some [4] }
+      let cp := Gen.Route.copyWithParams r ps id
+      (c, hexOf cp.name ++ " " ++ hexOf cp.path ++ " " ++ hexList cp.methods ++ " " ++ toString cp.handlers.length ++ " " ++
+          boolS cp.handler.isSome ++ " " ++ boolS cp.regex.isNone ++ " " ++ toString cp.matches_.length ++ " " ++
+          (match cp.params with | none => "nil" | some l => pairsS (sortPairs l)))
+    | _, _, _, _, _ => (c, "bad-op")
+  -- router.go New(opts…) [+ one route] + WithOptions(more…): the configuration afterwards
+  | ["wopt", routes, first, more] =>
+    let parseOpts (s : String) : Option (List (Gen.Router → Gen.Router)) :=
+      if s = "-" then some [] else
+      (s.splitOn ",").mapM fun o =>
+        match o.splitOn ":" with
+        | ["enc"] => some Gen.Opt.UseEncodedPath
+        | ["cache"] => some Gen.Opt.EnableCaching
+        | ["strict"] => some Gen.Opt.StrictLastSlash
+        | ["fb"] => some Gen.Opt.HandleFallbackRoute
+        | ["mna"] => some Gen.Opt.HandleMethodNotAllowed
+        | ["icpt", h] => (unhex h).map Gen.Opt.InterceptAll
+        | ["max", n] => n.toNat?.map fun n => Gen.Opt.MaxNumCaches n
+        | ["cnum", n] => n.toNat?.map fun n => Gen.Opt.CachingWithNum n
+        | _ => none
+    match routes.toNat?, parseOpts first, parseOpts more with
+    | some nr, some o1, some o2 =>
+      let cfgS (r : Gen.Router) : String :=
+        boolS r.strictLastSlash ++ " " ++ boolS r.handleFallbackRoute ++ " " ++ boolS r.handleMethodNotAllowed ++ " " ++
+        boolS r.enableCaching ++ " " ++ boolS r.useEncodedPath ++ " " ++ hexOf r.interceptAll ++ " " ++ toString r.maxNumCaches ++ " " ++
+        (match r.cachedRoutes with | none => "-1" | some n => toString n)
+      let run (r : Gen.Router) (os : List (Gen.Router → Gen.Router)) :=
+        Gen.Router.WithOptions r (List.range os.length) (fun i r => (os.getD i id) r) (fun n => n.toNat)
+      -- New(): maxNumCaches 1000, then WithOptions(first…)
+      (c, match run { (default : Gen.Router) with maxNumCaches := 1000 } o1 with
+          | .error _ => "panic"
+          | .ok r1 =>
+            -- the route registrations: appendRoute counts one route per method, AddRoute creates a missing cache
+            let r2 := (List.range nr).foldl (fun r _ =>
+              match Gen.Router.AddRoute r (default : Gen.Route) (fun r rt => .ok ({ r with counter := r.counter + 1 }, rt)) (fun n => n.toNat) with
+              | .ok (r', _) => r'
+              | .error _ => r) r1
+            match run r2 o2 with
+            | .error _ => "panic " ++ cfgS r2
+            | .ok r3 => "ok " ++ cfgS r3)
+    | _, _, _ => (c, "bad-op")
   | ["clen"] => (c, toString (Gen.CR.Len c))
   | ["ckeys"] => (c, hexList (c.list.items.map (·.key)))
   | _ => (c, "bad-op")
